@@ -193,6 +193,43 @@ CLAIMS['C15'].update(
     technique='static analysis: affine footprint analysis of marshal/unmarshal vs the length formulas, writer/reader field pairing, byte-lane analysis of the free-slot index encoding, finite-domain evaluation of first-byte predicates, edge-dominance rules for length guards, must-check rule for decode verdicts',
     text='For all 22 marshal/unmarshal pairs: bytes touched tile exactly [0, marshalledLength); writer and reader agree field by field and codec by codec; the 4 index bytes carry exactly the 4 bytes of idx, big-endian, and are read back to the same lanes (for all 2^32 values); length discovery agrees with what unmarshal consumes and is guarded; every decode verdict propagates. Equality of group elements after a round trip is C09 + the point codec.')
 
+# ---- session 4: decompositions, Miller schedule, cursor-bounded reads, ARMv6-M assembly, tower predicates / square root
+CLAIMS['C01'].update(
+    technique=CLAIMS['C01']['technique'] + '; concrete evaluation of the constant-controlled loops of miller_loop (any loop form) giving the per-pair event trace, compared with the Miller schedule derived from the bits of |x|',
+    text=CLAIMS['C01']['text'].replace('Not decided:', 'The sequence of accumulator updates per pair (squarings, tangent/chord steps, line evaluations, nothing else) IS the Miller schedule of |x|: one squaring between consecutive bit positions, none after the last, chord steps exactly at the set bits. Not decided:'))
+CLAIMS['C02'].update(
+    technique=CLAIMS['C02']['technique'].replace('x86-64 / AArch64 assembly', 'x86-64 / AArch64 / ARMv6-M assembly'),
+    text=CLAIMS['C02']['text'].replace(', ARMv6-M assembly.', '. The ARMv6-M routines are decided on the disassembly of the sources after a mechanical divided-to-unified Thumb syntax rewrite (32-bit words, 16x16 partial products); the fused multiply/square/reduce routines up to their call of the C++ reduce trampoline, whose callee is decided by the C++ rule.'),
+    note=CLAIMS['C02']['note'] + '; jpv/thumbconv.py (syntax rewrite) is trusted')
+CLAIMS['C03'].update(
+    technique=CLAIMS['C03']['technique'].replace('and AArch64 assembly routine', ', AArch64 and ARMv6-M assembly routine'),
+    text=CLAIMS['C03']['text'].replace('Not decided: ARMv6-M assembly bodies (not assemblable in this image; their C++ side is checked).', 'The ARMv6-M assembly (32-bit words) computes the same specifications, decided on the disassembly after the divided-to-unified syntax rewrite; its footprint (bytes written / read, returned flag, callee-saved registers, stack) is decided too.'),
+    note=CLAIMS['C03']['note'] + '; jpv/thumbconv.py and the Thumb instruction semantics in jpv/thumbsem.py')
+CLAIMS['C04'].update(
+    technique=CLAIMS['C04']['technique'] + '; monomial-shape rule for the Fq2 square root; truth tables of the tower predicates',
+    text=CLAIMS['C04']['text'].replace('Not decided: Fq2 square root / Legendre, byte I/O.', 'The Fq2 square root follows the exponent schedule of its algorithm with the exceptional branch taken exactly on alpha == -1, and is_zero / is_one / equal of Fq2, Fq6, Fq12 are the conjunctions over all coordinates. Not decided: Legendre symbol as a value, byte I/O.'))
+CLAIMS['C05'].update(
+    technique=CLAIMS['C05']['technique'] + '; truth tables of the coordinate predicates the guards rely on',
+    text=CLAIMS['C05']['text'])
+CLAIMS['C06'].update(
+    technique=CLAIMS['C06']['technique'] + '; per-path effect of the digit loops; word-level algebraic value numbering of decompose_lambda and PowersOfX::decompose (division by a constant modelled by a == d*q + rem, ordered subtraction by the compare fact)',
+    text='Decided: order-r-only multiplications are unreachable from code handling points outside the subgroup; recoding overflow repaired; digit reads guarded; extents; GLV / Frobenius constants; tables, streams and the per-digit accumulator updates of the interleaved loops (signs included); decompose_lambda returns (c0, c1, signs) with (+-c0) + lambda(+-c1) == k (mod r) identically in k on every path (all five configurations); PowersOfX::decompose returns digits with sum c_i |x|^i == y (mod r) identically in y on every path (64-bit-word configurations). Not decided: the w-NAF recoding as a value (digits sum to the scalar), the bit-serial division of the 32-bit-word configurations.')
+CLAIMS['C07'].update(
+    technique='static analysis: exponent-domain value numbering of the simultaneous and generic exponentiation routines (digit bits as symbols, Frobenius images as powers of x modulo r); span check of the cyclotomic squaring; word-level algebraic value numbering of PowersOfX::decompose; rejection-loop rule for the random exponent; constant relations; interval rule on the bit-scan loop',
+    text='Decided for all inputs: exponentiate_gt returns a^(sum of bit_i(c_j) 2^i |x|^j) with every one of the 256 digit bits used (distinct and aliased result), the generic routines weight bit i by 2^i, the fast squaring is a*a on the cyclotomic subgroup; PowersOfX::decompose recombines to the exponent modulo r on every path (y < r, y == r, y > r; 64-bit-word configurations), the discarded upper quotient words being zero by range; the random exponent is rejection-sampled below |x| per digit and below r overall and recombined with |x|^k. Not decided: the bit-serial division of the 32-bit-word configurations, uniformity as a distribution.',
+    note='tower operations are the field operations (C04); q = x and q^6 = -1 modulo r on the order-r subgroup are the facts used')
+for _p in ('C11', 'C12', 'C13', 'C14'):
+    CLAIMS[_p].update(
+        technique=CLAIMS[_p]['technique'] + '; must-dataflow on the CFG for cursor-selected reads of the input lists (R-INBOUNDS)',
+        text=CLAIMS[_p]['text'] + ' Independently of the loop structure: every element of an input list (attrs.attrs, sk.b, params.h) selected by a cursor is touched only where every path has tested that cursor against the list\'s count since it last moved.',
+        note=CLAIMS[_p]['note'] + '; the segment tables of R-SCHEME are tied to the loop structure of each routine: on a restructured routine that rule reports no verdict (exit 2) rather than an alarm')
+CLAIMS['C17'].update(
+    note=CLAIMS['C17']['note'].replace('ARMv6-M assembly bodies and Go callers not analysed', 'ARMv6-M assembly footprints decided on the disassembly after the syntax rewrite (jpv/thumbconv.py, trusted); Go callers not analysed'))
+CLAIMS['C18'].update(
+    note=CLAIMS['C18']['note'].replace('assembly leaves are assumed alias-safe until R-ASM summaries exist', 'assembly leaves (x86-64, AArch64, ARMv6-M) are summarised by their store-before-load facts'))
+CLAIMS['C19'].update(
+    technique=CLAIMS['C19']['technique'] + '; file-local helpers of the marshalling wrappers are seen through (parameter binding)')
+
 NA = {
 }
 
